@@ -581,6 +581,7 @@ impl<'a> Exec<'a> {
                     // C16: "since creation or clear" - the aggregates restart from nothing
                     self.check_aggregates(d.as_ref(), &a, "after clear()");
                     self.check_empty(d.as_ref(), "C19", "after clear()");
+                    self.check_empty(d.as_ref(), "C15", "after clear()");
                 }
                 DOp::Fork => {
                     self.stats.fault("fork");
